@@ -49,7 +49,7 @@ func runC05(r *Run) error {
 	hists := 10
 	cuts := 30
 	if r.Tier == "thorough" {
-		hists, cuts = 40, 60
+		hists, cuts = 160, 80
 	}
 	env, err := sharedEnv()
 	if err != nil {
